@@ -1,7 +1,7 @@
 (* C02/Link.v — the clause checker of PropCheck.v applied to what the MODEL itself produces.
    [observe] builds, from a run of the model, the same observed-case record that the harness builds from a run of
-   the implementation: (label, (result code, Size(), cond.waiting, len(cond.ch), consumers parked)) — the size /
-   waiting components are -1 ("not observed") while the mutex is held by a blocked Signal, as in Harness.model_out. *)
+   the implementation: (label, (result code, Size(), cond.waiting, len(cond.ch), consumers parked)) — since fix a6d2b6d09
+   nothing ever holds the mutex between two sections, so every component is always observable. *)
 From Verif Require Import C02.PropCheck C02.PropCheckProofs C02.Proofs C02.Proofs2 C02.Proofs3 C02.Proofs7.
 Require Import ZifyBool Permutation.
 Local Open Scope Z_scope.
@@ -29,8 +29,7 @@ Definition zlab_of (l : label) : zlab :=
   end.
 
 Definition zobs_of (res : Z) (s : st) : zobs :=
-  (res, match lock s with Free => size s | _ => -1 end,
-   match lock s with Free => waiting s | _ => -1 end, b2z (tok s), ccount false (cons s)).
+  (res, size s, waiting s, b2z (tok s), ccount false (cons s), sigs s).
 
 Fixpoint observe (c : cfg) (s : st) (ls : list label) : list (zlab * zobs) :=
   match ls with
@@ -156,8 +155,8 @@ Proof.
   destruct (reachable_inv _ _ Hc R) as (_ & _ & (G1 & G2 & G3 & _) & _).
   pose proof (handoff_exactly_once_l _ _ Hc R) as (ND & SUB & _ & REF & _ & _ & _ & _ & _ & NDA).
   split; [|split].
-  - unfold Clause_bounds, zobs_of, o_size. cbn [snd]. destruct (lock s); lia.
-  - unfold Clause_zero, zobs_of, o_size. cbn [snd fst]. destruct (lock s) eqn:L; try (left; lia).
+  - unfold Clause_bounds, zobs_of, o_size. cbn [snd]. lia.
+  - unfold Clause_zero, zobs_of, o_size. cbn [snd fst].
     destruct (unfinished h) eqn:U; [|right; left; discriminate]. right; right.
     assert (ALLFIN : forall p, In p (acc s) -> In p (map fst (fin s))).
     { intros p I. unfold unfinished in U. rewrite R5 in U.
